@@ -87,6 +87,10 @@ def space_expected(prev: Box, new: Box, word_margin: Fraction) -> Optional[bool]
     if gap <= 0:
         return False if word_margin >= 0 else None
     w, h = new[2] - new[0], new[3] - new[1]
+    for thr in (word_margin * max(w, h), word_margin * w):
+        # a non-dyadic word_margin (the default 0.1): a gap within rounding distance of the threshold is left alone
+        if gap != thr and abs(gap - thr) < Fraction(max(w, h), 2 ** 40):
+            return None
     r1 = gap > word_margin * max(w, h)
     r2 = gap > word_margin * w
     return r1 if r1 == r2 else None
